@@ -76,6 +76,17 @@ func (b *Builder) AddResponseCode(requestID graphsync.RequestID, status graphsyn
 	}
 }
 
+// AddPartialResponse makes sure a response for the given request ID goes out with this
+// message even if no links are sent. It does not touch a status already recorded for the
+// request: without one the response goes out as a partial response, and a final status
+// queued earlier is kept
+func (b *Builder) AddPartialResponse(requestID graphsync.RequestID) {
+	_, ok := b.outgoingResponses[requestID]
+	if !ok {
+		b.outgoingResponses[requestID] = nil
+	}
+}
+
 // Empty returns true if there is no content to send
 func (b *Builder) Empty() bool {
 	return len(b.requests) == 0 && len(b.outgoingBlocks) == 0 && len(b.outgoingResponses) == 0
